@@ -16,6 +16,14 @@ PROPS = {
         "note": "Trusted: Coq kernel, the Go->Gallina translator for the straight-line integer subset (cross-checked against the real functions on every run), uint64/int64 wrap semantics written as mod 2^64. No axioms.",
         "assumptions": ["Go integer conversions and shifts wrap modulo 2^64 as modelled by u64/i64 in Gen/IdsGen.v"],
     },
+    "C12": {
+        "level": "proof",
+        "design_ref": "§6 C12",
+        "technique": "Coq proof of a statement-level model of EntriesCursor.SkipTo (gallop + binary search with fuel), FieldCursor and insertion sort; model run against the real cursors on random and exhaustive small lists (vm_compute)",
+        "text": "SkipTo (index-level and value-level over any target sequence), group minimum and sort are Coq theorems about Model/Cursor.v, a statement-by-statement model of index_scanner.go; the model and the specification are both compared with the real cursors on every call of generated op sequences.",
+        "note": "Trusted: Coq kernel; the hand-written model of index_scanner.go (tied to the code only by the correspondence run on this tree); entries are uint64 so every entry <= NULLENTRY. No axioms.",
+        "assumptions": ["posting lists are sorted ascending (the builder sorts them; C01/C02 cover that)", "targets and entries are uint64 values"],
+    },
 }
 
 # properties not claimed (reason); empty when everything is claimed
